@@ -116,6 +116,15 @@ pub struct Globals {
     /// this settle: tasks that resumed from a wait on something inside the program / that aborted a command
     pub internal_resumes: BTreeSet<u64>,
     pub task_aborters: BTreeSet<u64>,
+    /// commands being run right now, outermost first
+    pub cmd_stack: Vec<u64>,
+    /// this settle: what made progress (task / chain / one-shot command uid) under which commands
+    pub ran_under: Vec<(u64, Vec<u64>)>,
+    /// this settle: (aborting task, aborted command)
+    pub task_aborts: Vec<(u64, u64)>,
+    /// which task spawned which
+    pub spawned_by: BTreeMap<u64, u64>,
+    pub spawned_this_settle: BTreeSet<u64>,
     pub local_rounds: u64,
     /// left operand of an `and` -> the combined command it is part of
     pub inline_parent: BTreeMap<u64, u64>,
@@ -210,6 +219,27 @@ impl Globals {
         // round of the pass, and what the other tasks did before that is a matter of queue order)
         if !self.task_aborters.is_empty() && !self.internal_resumes.is_empty() {
             self.ambiguous = Some("task-issued abort and an internally woken task in one settle".into());
+        }
+    }
+
+    /// A task aborts command X in a settle in which something else under X made progress too (other than
+    /// the tasks that - directly or indirectly - spawned the aborting task, which necessarily ran before
+    /// it): whether that something ran before or after the abort is a matter of the order in which the
+    /// executor happens to poll (first come first served, spawned tasks first, ...), which no property fixes.
+    fn check_abort_vs_siblings(&mut self) {
+        for (a, x) in &self.task_aborts {
+            let mut anc = BTreeSet::new();
+            let mut u = *a;
+            while let Some(p) = self.spawned_by.get(&u) {
+                if !anc.insert(*p) {
+                    break;
+                }
+                u = *p;
+            }
+            if self.ran_under.iter().any(|(t, stack)| t != a && !anc.contains(t) && stack.contains(x)) {
+                self.ambiguous = Some("task-issued abort while other work under the same command made progress in the settle".into());
+                return;
+            }
         }
     }
 
@@ -751,6 +781,8 @@ impl Seq {
                 Stmt::Spawn { task, slot } => {
                     let uid = g.uid();
                     g.live_tasks.insert(uid);
+                    g.spawned_by.insert(uid, g.cur_owner);
+                    g.spawned_this_settle.insert(uid);
                     // (the child's copy of the handles is taken before its own handle exists)
                     let child = if self.legacy { Seq::new(&task, self.acc, self.legacy) } else { Seq::branch(&task, self.acc, self.legacy, &self.slots) };
                     if let Some(s) = slot {
@@ -783,7 +815,7 @@ impl Seq {
                 },
                 Stmt::AbortTask(slot) => {
                     if let Some(uid) = self.slots.get(&slot) {
-                        if g.ran_this_settle.contains(uid) && !g.aborted_tasks.contains(uid) {
+                        if (g.ran_this_settle.contains(uid) || g.spawned_this_settle.contains(uid)) && !g.aborted_tasks.contains(uid) {
                             // whether the target ran before the abort depends on queue order
                             g.ambiguous = Some("task aborted in the settle in which it ran".into());
                         }
@@ -930,6 +962,8 @@ impl Seq {
                     let inst = g.uid();
                     g.chans.insert(inst, Chan { queue: VecDeque::new(), tx_alive: true, rx_alive: true, woke: false });
                     let uid = g.uid();
+                    g.spawned_by.insert(uid, g.cur_owner);
+                    g.spawned_this_settle.insert(uid);
                     g.live_tasks.insert(uid);
                     if let Some(sl) = slot {
                         self.slots.insert(sl, uid);
@@ -1006,6 +1040,7 @@ impl Seq {
                             g.cmds_aborted_this_settle.insert(uid);
                             g.pending_task_aborts.push(uid);
                             g.task_aborters.insert(g.cur_owner);
+                            g.task_aborts.push((g.cur_owner, uid));
                             g.check_abort_vs_internal_resume();
                         }
                     }
@@ -1186,6 +1221,8 @@ impl TaskSt {
         let fin = self.seq.run(g, outs, spawned);
         if g.progress {
             g.ran_this_settle.insert(self.uid);
+            let stack = g.cmd_stack.clone();
+            g.ran_under.push((self.uid, stack));
         }
         g.progress |= before;
         if fin {
@@ -1422,6 +1459,28 @@ impl CmdSt {
 
     /// `always_polled`: the holder polls this command on every settle (a directly inspected command)
     pub fn run(&mut self, g: &mut Globals, outs: &mut Vec<Out>, always_polled: bool) -> bool {
+        if self.finished {
+            return true;
+        }
+        let leaf = matches!(self.node, Node::Chain { .. } | Node::Emit1(_));
+        let before = g.progress;
+        if leaf {
+            g.progress = false;
+        }
+        g.cmd_stack.push(self.uid);
+        let r = self.run_inner(g, outs, always_polled);
+        if leaf {
+            if g.progress {
+                let stack = g.cmd_stack.clone();
+                g.ran_under.push((self.uid, stack));
+            }
+            g.progress |= before;
+        }
+        g.cmd_stack.pop();
+        r
+    }
+
+    fn run_inner(&mut self, g: &mut Globals, outs: &mut Vec<Out>, always_polled: bool) -> bool {
         if self.finished {
             return true;
         }
@@ -1780,6 +1839,11 @@ impl Model {
                 pending_task_aborts: vec![],
                 internal_resumes: BTreeSet::new(),
                 task_aborters: BTreeSet::new(),
+                cmd_stack: vec![],
+                ran_under: vec![],
+                task_aborts: vec![],
+                spawned_by: BTreeMap::new(),
+                spawned_this_settle: BTreeSet::new(),
                 local_rounds: 0,
                 inline_parent: BTreeMap::new(),
                 chans: BTreeMap::new(),
@@ -1931,6 +1995,10 @@ impl Model {
         g.ran_this_settle.clear();
         g.internal_resumes.clear();
         g.task_aborters.clear();
+        g.ran_under.clear();
+        g.task_aborts.clear();
+        g.spawned_this_settle.clear();
+        g.cmd_stack.clear();
         g.local_rounds = 0;
         let mut effects = vec![];
         let mut new_log = std::mem::take(&mut self.pending_new_log);
@@ -2029,6 +2097,9 @@ impl Model {
         }
         // channels nobody holds any more are forgotten
         self.g.chans.retain(|_, c| c.tx_alive || c.rx_alive);
+        if self.g.ambiguous.is_none() {
+            self.g.check_abort_vs_siblings();
+        }
         self.g.aborted_this_settle.clear();
         self.g.cmds_aborted_this_settle.clear();
         self.g.reap.clear();
